@@ -1294,6 +1294,9 @@ impl<A: Ar> Exec<A> {
         if post != pre {
             self.v("C18", "state_changed", format!("truncate({}) changed allocator state: {} -> {}", n, pre.to_json(), post.to_json()));
         }
+        if self.opts.check_reserved && a.reserved_slice() != &self.reserved_pat[..] {
+            self.v("C16", "reserved_written", format!("truncate({}) changed the reserved prefix", n));
+        }
         let mem = self.mem();
         let m = (pre.allocated as usize).min(mem.len());
         if mem[..m] != pre_bytes[..m] {
